@@ -264,7 +264,15 @@ pub fn run_cases(driver: &str, cases: Vec<Case>, workers: usize, max_shrink: usi
         for (k, ex) in &c.expect {
             oracle_checked += 1;
             let got = imp.get(*k).cloned().unwrap_or_default();
-            if normalize(&got) != normalize(&ex.out) && oracle_failures.len() < 50 {
+            // alternatives are separated by `||`; a trailing `*` makes an alternative a prefix
+            let ok = ex.out.split("||").any(|alt| {
+                let alt = normalize(alt.trim());
+                match alt.strip_suffix('*') {
+                    Some(pre) => normalize(&got).starts_with(pre),
+                    None => normalize(&got) == alt,
+                }
+            });
+            if !ok && oracle_failures.len() < 50 {
                 let mut tags = ex.tags.clone();
                 tags.push(if got.starts_with("ok") { "accepted".into() } else if got.starts_with("panic") { "panic".into() } else { "rejected".into() });
                 oracle_failures.push(serde_json::json!({
